@@ -71,7 +71,9 @@ def analyse(dep, rec, L):
     A.mll_maps = mll_maps
     A.post_maps = post_maps
     A.seam_rows = None
-    if A.path != "in_memory":
+    if A.path != "in_memory" and any(t["kind"] == "unknown" for m in rec["maps"] for t in m["tasks"]):
+        A.seam_rows = None  # task layout not understood: observation lost, output-based oracles only
+    elif A.path != "in_memory":
         rows = []
         for m in mll_maps:
             for t in m["tasks"]:
@@ -182,6 +184,9 @@ def check_partition(dep, prop="C16"):
                 v.append(Violation(prop, "C16.nonempty", "C16:pool-seam:no-tasks", "map %s with zero tasks" % m["key"]))
                 continue
             kinds = {t["kind"] for t in tasks}
+            if "unknown" in kinds:
+                probes["observation_lost:task-layout-unknown"] = probes.get("observation_lost:task-layout-unknown", 0) + 1
+                continue
             pos = 0
             key = "range" if kinds == {"range"} else "idx"
             probes["seam_%s_maps" % key] = probes.get("seam_%s_maps" % key, 0) + 1
